@@ -413,7 +413,10 @@ CONTRACTS["ufo2ft.outlineCompiler:OutlineTTFCompiler.compileGlyphs#guard"].runti
 #   scale(x, y) = self.transform((x,0,0,y,0,0)), transformPoint, transformVector, inverse.
 
 _T6 = ("xx", "xy", "yx", "yy", "dx", "dy")
-cls("Transform", fields={k: REAL for k in _T6}, notes="fontTools Transform: immutable value object (see new_value_object)")
+cls("Transform", fields={k: REAL for k in _T6},
+    derived={"canon": lambda ex, st, self: Val(Ref("Transform"), _TFM(*[z3.Select(ex.field_array(st, "Transform", k), lift(self)) for k in _T6]))},
+    notes="fontTools Transform: immutable value object; `t.canon` = THE value with t's six numbers (`t.canon == t` says t is such a value, "
+          "so that `==` on it is the NamedTuple's value equality — see mk_transform)")
 
 
 def _six(ex, st, v, node=None):
@@ -436,8 +439,31 @@ def _r(v):
     return lift(v, REAL)
 
 
+_TFM = z3.Function("c02_tfm", *([z3.RealSort()] * 6), T.RefSort)
+
+
 def mk_transform(ex, st, six):
-    return new_value_object(ex, st, "Transform", **{k: Val(REAL, z3.simplify(_r(x)) if not isinstance(x, Val) else _r(x)) for k, x in zip(_T6, six)})
+    """A Transform VALUE: the reference is a function of the six numbers (`c02_tfm`), so two transforms with the same numbers are the same
+    reference and — because the six fields of `c02_tfm(a..f)` are assumed to be a..f — different numbers give different references:
+    reference equality IS the NamedTuple's value equality.  (The field arrays of the immutable class are never stored to.)"""
+    terms = [z3.simplify(_r(x)) for x in six]
+    r = _TFM(*terms)
+    known = {}
+    for k, t in zip(_T6, terms):
+        st.assume(z3.Select(ex.field_array(st, "Transform", k), r) == t)
+        known[k] = Val(REAL, t)
+    _VALUE_OBJECTS[r.get_id()] = (r, "Transform", known)
+    return Val(Ref("Transform"), r)
+
+
+@trusted("c02.Transform", "fontTools.misc.transform.Transform(xx, xy, yx, yy, dx, dy): the transform VALUE with these six numbers (see mk_transform)")
+def _transform_ctor(ex, st, args, kwargs, node):
+    if len(args) != 6 or kwargs:
+        raise Unsupported("Transform(...) needs six positional values", node)
+    return mk_transform(ex, st, args)
+
+
+TRANSFORM_VALUE_CTOR = {"Transform": Val.obj(FuncRef(None, "c02.Transform"))}
 
 
 def _t_init(ex, st, self, args, kwargs, node):
@@ -616,8 +642,10 @@ contract(
     # input validity: no dangling component reference anywhere in the glyph set (otherwise the function raises ValueError —
     # that branch is exercised by the run-time harness only) and contour counts are counts
     requires=[_CLOSED, "component.baseGlyph in glyphSet.glyphs"],
-    globals={"flat_render_ok": _flat_render_ok},
+    globals={"flat_render_ok": _flat_render_ok, **TRANSFORM_VALUE_CTOR},
     ensures={
+        # every returned transform is a Transform VALUE (so that callers may compare it with `==`)
+        "transform-values": "all(r[1].canon == r[1] for r in result)",
         # a simple or mixed base is kept as it is, with exactly the component's six numbers
         "leaf": "implies(" + _SOM.format(g="glyphSet.glyphs[component.baseGlyph]") + ", len(result) == 1 and result[0][0] == component.baseGlyph and "
         + _eq6("result[0][1]", _CT) + ")",
@@ -640,17 +668,21 @@ contract(
     ], "flattened_components[i] = (name, flat_tr)": [
         "len(flattened_components) == len(prev) and flattened_components[i] == (name, flat_tr)",
         "all(flattened_components[k] == prev[k] for k in range(i))",
+        "all(flattened_components[k] == prev[k] for k in range(i + 1, len(prev)))",
+        "flat_tr.canon == flat_tr",
     ]},
     alias_ok=("flattened_components", "raw", "prev"),  # `raw` / `prev` are ghost SNAPSHOTS (values) of the list, not second holders of it
     loops={
         "for nested in glyph.components": Loop(
             index="j",
-            invariants={"only-leaves": "all(r[0] in glyphSet.glyphs and " + _SOM.format(g="glyphSet.glyphs[r[0]]") + " for r in all_flattened_components)"},
+            invariants={"only-leaves": "all(r[0] in glyphSet.glyphs and " + _SOM.format(g="glyphSet.glyphs[r[0]]") + " for r in all_flattened_components)",
+                        "transform-values": "all(r[1].canon == r[1] for r in all_flattened_components)"},
         ),
         "for (i, (name, tr)) in enumerate(flattened_components)": Loop(
             index="k0",
             invariants={
                 "len": "len(flattened_components) == len(raw)",
+                "transform-values": "all(flattened_components[k][1].canon == flattened_components[k][1] for k in range(len(flattened_components)))",
                 # THE composition: entry k becomes (same name, component.T ∘ nested.T) with the exact six terms
                 "composed-name": "all(flattened_components[k][0] == raw[k][0] for k in range(k0))",
                 **{"composed-" + _k: "all(flattened_components[k][1]." + _k + " == " + _e + " for k in range(k0))"
@@ -1360,3 +1392,150 @@ def _glyf_build(d):
 CONTRACTS["ufo2ft.outlineCompiler:OutlineTTFCompiler.setupTable_glyf"].runtime = Runtime(_glyf_cases, _glyf_build, call=lambda fn, a: fn(a["self"]))
 CLASSES["C02_TTCompiler"].views["_compiledGlyphs"] = lambda o: o._compiledGlyphs
 
+
+# =====================================================================================================
+# InstructionCompiler.autoUseMyMetrics: USE_MY_METRICS is set on the FIRST component that has the composite's advance width, no 2x2
+# transform and no horizontal shift (any vertical shift) and whose base is in hmtx — on no other component, and nothing but that flag bit
+# changes (glyph names, offsets and 2x2 parts of the references are not written: "composites keep their references").
+# Abstraction as in compileGlyphs: a flags word = the SET of its bit masks, `flags |= USE_MY_METRICS` = union with {0x200}.
+# TRUSTED (fontTools): component.getComponentInfo() == (glyphName, (xx, xy, yx, yy, x, y)); components addressed by point numbers
+# (`firstPt` / `secondPt`: AttributeError in getComponentInfo, skipped by the code) do not occur in ufo2ft's own output and are not modelled.
+
+_GC6 = ("xx", "xy", "yx", "yy", "x", "y")
+
+
+def _gcomp_info(ex, st, self, args, kwargs, node):
+    return Val(PYOBJ, None, (ex.read_field(st, self, "glyphName"), Val(PYOBJ, None, tuple(ex.read_field(st, self, "t_" + k) for k in _GC6), True)), True)
+
+
+def _tt2x2(o, i, j):
+    return getattr(o, "transform", ((1, 0), (0, 1)))[i][j]
+
+
+cls("C02_GComp", fields={"glyphName": STR, "flags": Set(INT), **{"t_" + k: REAL for k in _GC6}}, methods={"getComponentInfo": _gcomp_info},
+    views={"flags": lambda o: {b for b in (1 << i for i in range(16)) if o.flags & b}, "t_xx": lambda o: _tt2x2(o, 0, 0), "t_xy": lambda o: _tt2x2(o, 0, 1),
+           "t_yx": lambda o: _tt2x2(o, 1, 0), "t_yy": lambda o: _tt2x2(o, 1, 1), "t_x": lambda o: o.x, "t_y": lambda o: o.y},
+    notes="glyf component record: glyphName, flags (set of bit masks), 2x2 transform and offset")
+cls("C02_CompositeRecord", fields={"components": List(Ref("C02_GComp"))}, notes="composite glyf record: its components")
+cls("C02_InstrC", fields={"otf": Ref("TTFont")}, repo="ufo2ft.instructionCompiler:InstructionCompiler", notes="InstructionCompiler instance (otf)")
+
+_HM = "self.otf['hmtx'].metrics"
+_W = f"{_HM}[glyphName][0]"
+_CK = "ttGlyph.components[{k}]"
+
+
+def _qualifies(k):
+    c = _CK.format(k=k)
+    return (f"({c}.glyphName in {_HM} and {_HM}[{c}.glyphName][0] == {_W} and {c}.t_xx == 1 and {c}.t_xy == 0 and {c}.t_yx == 0 and {c}.t_yy == 1 and {c}.t_x == 0)")
+
+
+_NCOMP2 = "len(ttGlyph.components)"
+_FIRSTQ = "({q} and all(not {qj} for j in range(k)))".format(q=_qualifies("k"), qj=_qualifies("j"))
+contract(
+    "ufo2ft.instructionCompiler:InstructionCompiler.autoUseMyMetrics",
+    props=["C02"],
+    params={"self": Ref("C02_InstrC"), "ttGlyph": Ref("C02_CompositeRecord"), "glyphName": STR},
+    globals={"USE_MY_METRICS": Val.const({0x200})},
+    modifies=["C02_GComp.flags"],
+    requires=["self.otf.get('hmtx') is not None", f"glyphName in {_HM}", "distinct(ttGlyph.components)"],
+    ensures={
+        # the first qualifying component gets the bit (and nothing else in its flags changes) ...
+        "first-qualifying-gets-the-flag": f"all(implies({_FIRSTQ}, {_CK.format(k='k')}.flags == old({_CK.format(k='k')}.flags) | {{512}}) for k in range({_NCOMP2}))",
+        # ... every other component keeps its flags
+        "others-untouched": f"all(implies(not {_FIRSTQ}, {_CK.format(k='k')}.flags == old({_CK.format(k='k')}.flags)) for k in range({_NCOMP2}))",
+    },
+    canaries={"never-sets": f"all({_CK.format(k='k')}.flags == old({_CK.format(k='k')}.flags) for k in range({_NCOMP2})) and {_NCOMP2} > 0"},
+    ghost_vars={"F0": (List(Set(INT)), "[c.flags for c in ttGlyph.components]")},
+    loops={
+        "for component in ttGlyph.components": Loop(
+            index="i",
+            invariants={
+                "none-qualified-yet": f"all(not {_qualifies('j')} for j in range(i))",
+                "all-untouched": f"all({_CK.format(k='k')}.flags == F0[k] for k in range({_NCOMP2}))",
+            },
+        )
+    },
+)
+
+
+def _aum_cases(rng, n):
+    out = []
+    for k in range(n):
+        glyphs = {}
+        for b in ("b0", "b1", "b2"):
+            glyphs[b] = {"width": rng.choice([500, 600]), "contours": [[[0, 0, "line"], [100, 0, "line"], [100, 100, "line"]]]}
+        comps = []
+        for _ in range(rng.randint(1, 4)):
+            kind = rng.random()
+            t = [1, 0, 0, 1, 0, rng.choice([0, 50, -20])] if kind < 0.5 else [1, 0, 0, 1, rng.choice([10, -30]), 0] if kind < 0.75 else [rng.choice([0.5, -1]), 0, 0, 1, 0, 0]
+            comps.append([rng.choice(["b0", "b1", "b2", "b2"]), t])
+        glyphs["c"] = {"width": rng.choice([500, 600]), "components": comps}
+        out.append({"glyphs": glyphs, "ufolib": ["ufoLib2", "defcon"][k % 2]})
+    return out
+
+
+def _aum_build(d):
+    from ufo2ft.instructionCompiler import InstructionCompiler
+    from ufo2ft.outlineCompiler import OutlineTTFCompiler
+
+    f = rtlib.build_ufo({"glyphs": d["glyphs"]}, d["ufolib"])
+    comp = OutlineTTFCompiler(f)
+    comp.autoUseMyMetrics = False  # compile WITHOUT the automatic flag, then run the real method on the finished record
+    otf = comp.compile()
+    return {"self": InstructionCompiler(f, otf), "ttGlyph": otf["glyf"]["c"], "glyphName": "c"}
+
+
+CONTRACTS["ufo2ft.instructionCompiler:InstructionCompiler.autoUseMyMetrics"].runtime = Runtime(_aum_cases, _aum_build)
+
+# =====================================================================================================
+# flattenComponents._flattenGlyphComponents: the glyph's component list is rebuilt from the flattened references of every component, in
+# order; afterwards every component points at a simple-or-mixed glyph of the glyph set (nesting depth <= 1); a glyph whose components
+# already do is re-emitted unchanged (same bases, same six numbers, same order) and reported as not flattened.
+# TRUSTED (UFO libraries): glyph.clearComponents(); the glyph's point pen's addComponent(base, transformation) appends a NEW component with
+# that base and those six numbers.  fontTools' Transform is a NamedTuple: `Transform == 6-tuple` compares the six numbers (eq hook).
+
+
+def _transform_eq(ex, st, self, other, node):
+    """Transform(...) == <6-sequence>: the six numbers agree (NamedTuple / tuple equality)"""
+    a = [lift(v, REAL) for v in _six(ex, st, self)]
+    b = [lift(v, REAL) for v in _six(ex, st, other, node)]
+    return z3.And(*[x == y for x, y in zip(a, b)])
+
+
+CLASSES["Transform"].eq = _transform_eq
+
+
+def _fg_clear(ex, st, self, args, kwargs, node):
+    c = ex.read_field(st, self, "components")
+    ex.write_field(st, self, "components", Val(c.ty, z3.Empty(c.ty.sort())), node)
+    return Val.const(None)
+
+
+_fg_clear.modifies = ["C02_FGlyph.components"]
+
+
+def _fg_pen(ex, st, self, args, kwargs, node):
+    p = ex.new_object(st, "C02_FPen")
+    ex.write_field(st, p, "glyph", self, node)
+    return p
+
+
+def _fpen_addComponent(ex, st, self, args, kwargs, node):
+    base, tr = args
+    g = ex.read_field(st, self, "glyph")
+    nc = ex.new_object(st, "C02_Component")
+    ex.write_field(st, nc, "baseGlyph", base, node)
+    for k, v in zip(_T6, _six(ex, st, tr, node)):
+        ex.write_field(st, nc, "t_" + k, v, node)
+    c = ex.read_field(st, g, "components")
+    t = lift(c)
+    new = z3.Concat(t, z3.Unit(lift(nc)))
+    k = z3.Int(fresh_name("ck"))
+    st.assume(z3.And(z3.Length(new) == z3.Length(t) + 1, new[z3.Length(t)] == lift(nc), z3.ForAll([k], z3.Implies(z3.And(0 <= k, k < z3.Length(t)), new[k] == t[k]))))
+    ex.write_field(st, g, "components", Val(c.ty, new), node)
+    return Val.const(None)
+
+
+_fpen_addComponent.modifies = ["C02_FGlyph.components", "C02_Component.baseGlyph"] + ["C02_Component.t_" + k for k in _T6]
+cls("C02_FPen", fields={"glyph": Ref("C02_FGlyph")}, methods={"addComponent": _fpen_addComponent}, notes="glyph.getPointPen() of a component-only rebuild: addComponent appends a new component")
+CLASSES["C02_FGlyph"].methods.update({"clearComponents": _fg_clear, "getPointPen": _fg_pen})
